@@ -7,7 +7,8 @@ CONSTANTS
   Variant = "intended"
   MaxPert = 1
   Rounds = 20
-  OwnConds <- BBoth
+  OwnConds <- OCAll
+  GenSels <- BBoth
   ScaleRevs <- BBoth
 INVARIANTS Emit
 CHECK_DEADLOCK FALSE
